@@ -161,7 +161,7 @@ structure G where
   lock     : Option Nat := none
   sysEmail : Bool := false       -- `git config user.email` of the account running the script is not empty
   hist     : List Nat := []      -- ghost: numbers made current by `ln -s`, newest first
-  trouble  : Bool := false       -- ghost: a `git commit`, `git pull --no-rebase` or `git push` of the script has failed
+  trouble  : Bool := false       -- ghost: a `git clone`, `git commit`, `git pull --no-rebase` or `git push` of the script has failed
   edited   : Bool := false       -- ghost: somebody rewrote the POLICY file by hand (or such a commit was reverted)
   deriving DecidableEq, Repr, Inhabited
 
@@ -242,8 +242,8 @@ def exec (c : Cmd) (g : G) (p : Proc) : G × Proc × Bool :=
     | some d =>
       if d.head.isNone then
         ({ g with next := some { d with head := some g.remote } }, { p with base := g.remote, wpol := none, spol := none }, true)
-      else (g, p, false)
-    | none => (g, p, false)
+      else ({ g with trouble := true }, p, false)
+    | none => ({ g with trouble := true }, p, false)
   | .testPolicyFile =>
     match g.nextTree with
     | some t => (g, p, t.pol.isSome)
